@@ -343,6 +343,11 @@ Vec Group::log(const Mat& M, bool* ok) const {
     if (B.rotdim == 2) t(offDoF[b] + B.rot_t0) = std::atan2(M(o + 1, o), M(o, o));
     else if (B.rotdim == 3) t.segment(offDoF[b] + B.rot_t0, 3) = rotlog3(M.block(o, o, 3, 3));
   }
+  return log_seeded(M, t, ok);
+}
+
+Vec Group::log_seeded(const Mat& M, const Vec& seed, bool* ok) const {
+  Vec t = seed;
   bool conv = false;
   for (int it = 0; it < 40; ++it) {
     Mat D = logm_series(expm(hat(-t)) * M);
@@ -454,6 +459,72 @@ Real Group::diffJ(const Mat& A, const Mat& B, Real lin) const {
       if (e > nb) nb = e;
     }
   return m / nb;
+}
+
+
+Mat fd_jacobian(const Space& dom, const Space& cod, const Fn& f, const Mat& x, Real h, Real L) {
+  Mat y0 = f(x);
+  Mat y0inv;
+  if (cod.g) y0inv = cod.g->inv(y0);
+  Mat J(cod.dim, dom.dim);
+  for (int j = 0; j < dom.dim; ++j) {
+    Real hj = dom.rot[j] ? h : h * L;
+    Vec col[2];
+    for (int s = 0; s < 2; ++s) {
+      Real e = s == 0 ? hj : -hj;
+      Mat xp;
+      if (dom.g) { Vec d = Vec::Zero(dom.dim); d(j) = e; xp = x * dom.g->exp(d); }
+      else { xp = x; xp(j, 0) += e; }
+      Mat yp = f(xp);
+      if (cod.g) col[s] = cod.g->vee(logm_series(y0inv * yp));
+      else col[s] = yp.col(0) - y0.col(0);
+    }
+    J.col(j) = (col[0] - col[1]) / (2 * hj);
+  }
+  return J;
+}
+
+Real diff_jac(const Mat& A, const Mat& B, const std::vector<char>& row_rot, const std::vector<char>& col_rot, Real L) {
+  if (A.rows() != B.rows() || A.cols() != B.cols()) return std::numeric_limits<Real>::infinity();
+  Real m = 0, nb = 1;
+  for (int r = 0; r < A.rows(); ++r)
+    for (int c = 0; c < A.cols(); ++c) {
+      if (bad(A(r, c)) || bad(B(r, c))) return std::numeric_limits<Real>::infinity();
+      Real f = 1;
+      if (!row_rot[r]) f /= L;
+      if (!col_rot[c]) f *= L;
+      Real d = std::fabs(A(r, c) - B(r, c)) * f, e = std::fabs(B(r, c)) * f;
+      if (d > m) m = d;
+      if (e > nb) nb = e;
+    }
+  return m / nb;
+}
+
+
+Real diff_prod(const Mat& X, const Mat& Y, const Mat& E, const std::vector<char>& row_rot, const std::vector<char>& col_rot, Real L) {
+  Mat P = X * Y, Nrm = X.cwiseAbs() * Y.cwiseAbs();
+  if (P.rows() != E.rows() || P.cols() != E.cols()) return std::numeric_limits<Real>::infinity();
+  Real nb = 1;
+  for (int r = 0; r < P.rows(); ++r)
+    for (int c = 0; c < P.cols(); ++c) {
+      Real f = 1;
+      if (!row_rot[r]) f /= L;
+      if (!col_rot[c]) f *= L;
+      Real e = std::fabs(E(r, c)) * f;
+      if (e > nb) nb = e;
+    }
+  Real m = 0;
+  for (int r = 0; r < P.rows(); ++r)
+    for (int c = 0; c < P.cols(); ++c) {
+      if (bad(P(r, c)) || bad(E(r, c))) return std::numeric_limits<Real>::infinity();
+      Real f = 1;
+      if (!row_rot[r]) f /= L;
+      if (!col_rot[c]) f *= L;
+      Real d = std::fabs(P(r, c) - E(r, c)) * f;
+      Real n = std::max(nb, Nrm(r, c) * f);
+      if (d / n > m) m = d / n;
+    }
+  return m;
 }
 
 }  // namespace ref
